@@ -72,6 +72,10 @@ func panicMsg(x any) string {
 		if i := strings.IndexAny(s, "[0123456789"); i > 0 {
 			s = s[:i]
 		}
+	} else if strings.HasPrefix(s, "runtime: ") || strings.HasPrefix(s, "signal: ") {
+		if p := strings.SplitN(s, ":", 3); len(p) == 3 {
+			s = p[0] + ":" + p[1]
+		}
 	} else if i := strings.Index(s, ":"); i > 0 {
 		s = s[:i]
 	}
@@ -336,6 +340,10 @@ type child struct {
 	samples  int
 	curGroup int
 	sites    map[string][2]string
+	// allocHits counts allocation-bound violations per codec in this child;
+	// once a codec is refuted often enough the (seconds-long) maximum-count
+	// mutations against it are skipped and counted as such.
+	allocHits map[string]int
 }
 
 func (ch *child) emit(r childRec) {
@@ -492,6 +500,7 @@ func (ch *child) runCase(id string, c *codec, kind string, input, seed []byte) (
 		}
 	case alloc > allocBound(len(input)):
 		ch.obs["alloc_bound_exceeded"]++
+		ch.allocHits[c.name]++
 		// attribute the allocation by re-running under the heap profiler, once
 		// per codec and mutation class in this child (the re-run costs as much
 		// as the offending call)
@@ -506,7 +515,7 @@ func (ch *child) runCase(id string, c *codec, kind string, input, seed []byte) (
 		}
 		site, stack := ss[0], ss[1]
 		vv := mkViol("alloc-bound:"+site, fmt.Sprintf("%s allocated %d MiB (bound %d MiB = max(64 MiB, 64 x %d bytes)) and used %v CPU for one call, result err=%v; dominant allocation stack: %s",
-			c.entry, alloc>>20, allocBound(len(input))>>20, len(input), cpu.Round(time.Millisecond), err, stack), c, input, map[string]any{"mutation": kind, "alloc_bytes": alloc, "cpu_ms": cpu.Milliseconds()})
+			c.entry, alloc>>20, allocBound(len(input))>>20, len(input), cpu.Round(time.Millisecond), err, stack), c, input, map[string]any{"mutation": kind, "alloc_bytes": alloc, "cpu_ms": cpu.Milliseconds(), "site_key": ck, "site": site, "site_stack": stack})
 		if report {
 			ch.emit(childRec{T: "v", Case: id, V: &vv})
 		}
@@ -535,6 +544,10 @@ func (ch *child) runCase(id string, c *codec, kind string, input, seed []byte) (
 			} else {
 				outcome = "accepted:non-canonical"
 				ch.obs["accepted_noncanonical_inputs"]++
+				if ch.samples < 1 && len(input) < 400 {
+					ch.samples++
+					ch.emit(childRec{T: "s", Case: id, Sample: map[string]any{"case": id, "codec": c.name, "mutation": kind, "outcome": "accepted, re-encoding differs from the input", "input_hex": hexCap(input), "reencoded_hex": hexCap(re), "violations": len(vs)}})
+				}
 			}
 			ch.obs["accepted_inputs"]++
 			if report {
@@ -622,9 +635,13 @@ func (ch *child) runGroup(g int, skip int, fuzzPerGroup int) {
 		}
 		// counts and lengths at the discovered fields
 		r.Shuffle(len(sites), func(a, b int) { sites[a], sites[b] = sites[b], sites[a] })
-		for _, p := range sites[:min(len(sites), 10)] {
+		for _, p := range sites[:min(len(sites), 8)] {
 			for _, bc := range bigCounts {
-				if r.Chance(1, 2) {
+				if r.Chance(1, 4) {
+					if ch.allocHits[c.name] >= 6 {
+						ch.counts[c.name+"|count-max|skipped:allocation-bound-already-refuted-6-times"]++
+						continue
+					}
 					run(fmt.Sprintf("count-max@%d", p), splice(seed, p, 1, bc))
 				}
 			}
@@ -680,7 +697,12 @@ func runChild(spec string) {
 		fmt.Fprintln(os.Stderr, err)
 		os.Exit(2)
 	}
-	ch := &child{out: bufio.NewWriter(outF), outF: outF, last: last, counts: map[string]int64{}, obs: map[string]int64{}, only: os.Getenv("VERIF_ONLY_CASE"), sites: map[string][2]string{}}
+	ch := &child{out: bufio.NewWriter(outF), outF: outF, last: last, counts: map[string]int64{}, obs: map[string]int64{}, only: os.Getenv("VERIF_ONLY_CASE"), sites: map[string][2]string{}, allocHits: map[string]int{}}
+	for _, kv := range strings.Split(os.Getenv("VERIF_C17_SITES"), ";;") {
+		if p := strings.SplitN(kv, "==", 3); len(p) == 3 {
+			ch.sites[p[0]] = [2]string{p[1], p[2]}
+		}
+	}
 	ch.codecs = allCodecs()
 	ch.sched = schedule(ch.codecs)
 	pubKeys()
